@@ -943,13 +943,24 @@ func limitFailureReported(c *core.Ctx, R string) {
 		info := u.Info()
 		// (a)
 		okA := false
+		// the call that can be handed a negative length: the one fed from the 64-bit form, or — when the forms share
+		// one call — that call
+		var cands []*core.Call
 		for _, cl := range u.Calls() {
-			if cl.Name != "setReadRemaining" {
-				continue
+			if cl.Name == "setReadRemaining" {
+				if ce, isC := ast.Unparen(cl.Arg(0)).(*ast.CallExpr); isC && strings.Contains(core.ExprString(ce), "Uint64") {
+					cands = append(cands, cl)
+				}
 			}
-			if ce, isC := ast.Unparen(cl.Arg(0)).(*ast.CallExpr); !isC || !strings.Contains(core.ExprString(ce), "Uint64") {
-				continue
+		}
+		if len(cands) == 0 {
+			for _, cl := range u.Calls() {
+				if cl.Name == "setReadRemaining" {
+					cands = append(cands, cl)
+				}
 			}
+		}
+		for _, cl := range cands {
 			failed := func(x *core.Unit, br core.Branch) int {
 				cmp, ok := x.BranchCmp(br)
 				if !ok || cmp.Y == nil || !core.IsNil(x.Info(), cmp.Y) {
